@@ -199,6 +199,47 @@ M('c07-promote-no-backlink', 'C07', 'src/containers/qhasharr.c',
   "        tblslots[idx].count = backupcount - 1;  // adjust collision counter\n        if (tblslots[idx].link != -1) {\n            tblslots[tblslots[idx].link].hash = idx;\n        }\n",
   "        tblslots[idx].count = backupcount - 1;  // adjust collision counter\n", 'I6', 'qhasharr_remove_by_idx', 'back-link of the value chain not repaired after promotion')
 
+# ---- C01 / C04 -------------------------------------------------------------------------------
+M('c01-find-swapped', 'C01', 'src/containers/qtreetbl.c',
+  "        obj = (cmp < 0) ? obj->left : obj->right;", "        obj = (cmp < 0) ? obj->right : obj->left;", 'T2', 'find_obj', 'lookup descends the wrong way')
+M('c01-put-eq-order', 'C01', 'src/containers/qtreetbl.c',
+  "    if (cmp == 0) {  // existing key found", "    if (cmp == 0 && datasize == 0) {  // existing key found", 'T2', 'put_obj', 'equal key can descend')
+M('c01-rotate-discarded', 'C01', 'src/containers/qtreetbl.c',
+  "    if (is_red(obj->right) && !is_red(obj->left)) {\n        obj = rotate_left(obj);", "    if (is_red(obj->right) && !is_red(obj->left)) {\n        rotate_left(obj);",
+  'T3', 'put_obj', 'rotation result dropped')
+M('c01-wrong-link', 'C01', 'src/containers/qtreetbl.c',
+  "        obj->right = rotate_right(obj->right);\n        obj = rotate_left(obj);\n        flip_color(obj);", "        obj->left = rotate_right(obj->right);\n        obj = rotate_left(obj);\n        flip_color(obj);",
+  'T3', 'move_red_left', 'result stored into the other link')
+M('c01-root-not-stored', 'C01', 'src/containers/qtreetbl.c',
+  "    tbl->root = remove_obj(tbl, tbl->root, name, namesize);\n    if (tbl->root != NULL) {\n        tbl->root->red = false;\n    }",
+  "    qtreetbl_obj_t *newroot = remove_obj(tbl, tbl->root, name, namesize);\n    if (newroot != NULL) {\n        newroot->red = false;\n    }",
+  'T3-root', 'qtreetbl_removeobj', 'new root never stored')
+M('c01-replace-counts', 'C01', 'src/containers/qtreetbl.c',
+  "            free(obj->data);\n            obj->data = copydata;\n            obj->datasize = datasize;", "            free(obj->data);\n            obj->data = copydata;\n            obj->datasize = datasize;\n            tbl->num++;",
+  'T4', 'put_obj', 'count bumped on value replacement')
+M('c01-remove-uncounted', 'C01', 'src/containers/qtreetbl.c',
+  "                free(obj);\n                tbl->num--;\n                return NULL;", "                free(obj);\n                return NULL;", 'T4', None, 'leaf removal not counted')
+M('c01-strcmp-fastpath', 'C01', 'src/containers/qtreetbl.c',
+  "        int cmp = tbl->compare(name, namesize, obj->name, obj->namesize);\n        if (cmp == 0) {\n            return obj;",
+  "        int cmp = tbl->compare(name, namesize, obj->name, obj->namesize);\n        if (cmp == 0 || !strcmp(name, obj->name)) {\n            return obj;",
+  'T1', 'find_obj', 'string comparison bypasses the configured ordering')
+M('c04-no-reset', 'C04', 'src/containers/qtreetbl.c',
+  "        tbl->root->next = NULL;\n    }\n    qtreetbl_obj_t *obj, *lastobj;", "    }\n    qtreetbl_obj_t *obj, *lastobj;", 'T5', 'qtreetbl_find_nearest', 'root parent link not cleared before the climb')
+M('c04-no-parent-link', 'C04', 'src/containers/qtreetbl.c',
+  "            if (obj->right != NULL) {\n                obj->right->next = obj;\n            }\n            obj = obj->right;", "            obj = obj->right;",
+  'T5', 'qtreetbl_find_nearest', 'right descent does not record the parent')
+M('c04-getnext-no-reset', 'C04', 'src/containers/qtreetbl.c',
+  "        tid = reset_iterator(tbl);;", "        tid = ++tbl->tid;", 'T5', 'qtreetbl_getnext', 'first call does not clear the root parent link')
+M('c04-descent-swapped', 'C04', 'src/containers/qtreetbl.c',
+  "        lastobj = obj;\n        if (cmp < 0) {", "        lastobj = obj;\n        if (cmp > 0) {", 'T2', 'qtreetbl_find_nearest', 'search descends the wrong way')
+M('c15-root-dropped', 'C15', 'src/containers/qtreetbl.c',
+  "    if (root != NULL) {\n        // the tree may have been restructured on the way down even if the\n        // insertion itself failed, so always keep the returned root.\n        root->red = false;\n        tbl->root = root;\n    }\n    if (root == NULL || errno == ENOMEM) {\n        qtreetbl_unlock(tbl);\n        return false;\n    }\n",
+  "    if (root == NULL || errno == ENOMEM) {\n        qtreetbl_unlock(tbl);\n        return false;\n    }\n    root->red = false;\n    tbl->root = root;\n",
+  'A4', 'qtreetbl_putobj', 'restructured root dropped on the ENOMEM exit')
+M('c15-newobj-value-unchecked', 'C15', 'src/containers/qtreetbl.c',
+  "    if (obj == NULL || copyname == NULL\n        || (copydata == NULL && data != NULL && datasize > 0)) {", "    if (obj == NULL || copyname == NULL) {",
+  'A1', 'new_obj', 'failed value copy absorbed as an empty value')
+
 
 def run_selftest(prop, rep, rule_fn, config='cmake-release'):
     """Apply every mutant of `prop` to a scratch copy, run rule_fn(prog, report) on it, and
